@@ -800,6 +800,13 @@ def gen_struct(rng, n):
     return out
 
 
+def gen_emptyvals():
+    """attribute values that are (or become) the empty string"""
+    from harness.differ_props import EMPTY_VALUE_STREAM
+    return [{"kind": "struct", "left": l, "right": r, "cfg": {"normalize": WS_NONE, "replace": rep, "tt": [], "fmt": []},
+             "opts": {}, "late": False} for l, r in EMPTY_VALUE_STREAM for rep in (False, True)]
+
+
 def gen_perms():
     """every reordering of three and of four siblings (distinct tags; same tag told apart by text), no text tags: several
     moves inside ONE parent, each leaving a diff:delete original behind that later positions must not count"""
@@ -822,7 +829,7 @@ def gen_subattrs(rng, n):
     out = []
     for _ in range(n):
         def attrs(k):
-            return {a: rng.choice(["1", "1", "2"]) for a in rng.sample(names, k)}
+            return {a: rng.choice(["1", "1", "2", ""]) for a in rng.sample(names, k)}
         root = etree.Element("doc")
         root.text = "t"
         for i in range(rng.randint(1, 3)):
@@ -837,7 +844,7 @@ def gen_subattrs(rng, n):
                 if r_ < .35:
                     del e.attrib[a]
                 elif r_ < .6:
-                    e.set(a, e.get(a) + "x")
+                    e.set(a, e.get(a) + "x" if e.get(a) != "x" else "")
             for a, v in attrs(rng.randint(0, 3)).items():
                 if a not in e.attrib:
                     e.set(a, v)
@@ -1245,6 +1252,7 @@ def gen_inputs(run, rng):
     cases += gen_texttags(rng, 500 if quick else 5000)
     cases += gen_subattrs(rng, 60 if quick else 600)
     cases += gen_perms()
+    cases += gen_emptyvals()
     cases += gen_wsonly(rng, 40 if quick else 300)
     cases += gen_latectr(rng, 80 if quick else 800)
     cases += gen_sibshift(rng, 40 if quick else 300)
